@@ -1,6 +1,6 @@
 import BadgerModel.DirLock
 -- import BadgerModel.Pipeline
--- import BadgerModel.Crypto
+import BadgerModel.Crypto
 import BadgerModel.Driver.Util
 /-! Drivers of the `sys` area: `lock` (C35), `pipeline` (C38), `crypto` (C23); see
     harness/eng_lock.go and harness/eng_sys.go. -/
@@ -65,5 +65,70 @@ def lockStep (d : LockDrv) (line : String) : LockDrv × String :=
     let d' := { d with sys := s' }
     (d', r.str ++ " " ++ lockDump d')
   | _ => (d, "bad-op")
+
+/-! ## crypto engine (stateless) -/
+
+/-- A concrete stand-in cipher for the driver (the theorems hold for every `E`): key-stream byte
+    = key byte at that position + counter + position. Different first key bytes give different
+    sanity texts, which is all the registry lines need. -/
+def drvE : Crypto.BlockFn := fun key ctr j =>
+  UInt8.ofNat ((key.getD (j % (if key.length = 0 then 1 else key.length)) 0).toNat + ctr % 251 + j)
+
+def fmtRegOpen (r : Except Crypto.Err Crypto.Registry × List Crypto.Write) : String :=
+  match r.1 with
+  | .ok reg => s!"ok {reg.dataKeys.length}"
+  | .error .keyMismatch => "mismatch"
+  | .error .invalidKey => "invalid-key"
+  | .error .invalidDataKeyID => "invalid-id"
+
+def mkKeys (n : Nat) : List Crypto.DataKey :=
+  (List.range n).map (fun i => { id := i + 1, data := [UInt8.ofNat (i + 3), 7, 9], createdAt := 100 + i, iv := 1000 + i })
+
+def cryptoStep (line : String) : String :=
+  match words line with
+  | ["iv", base, off] =>
+    match hexArg base, natArg off with
+    | some b, some o => if b.length != 12 then "bad-op" else toHex (Crypto.generateIV b o)
+    | _, _ => "bad-op"
+  | ["ctrs", base, o1, l1, o2, l2] =>
+    match hexArg base, natArg o1, natArg l1, natArg o2, natArg l2 with
+    | some b, some o1, some l1, some o2, some l2 =>
+      let iv1 := beNat (Crypto.generateIV b o1)
+      let iv2 := beNat (Crypto.generateIV b o2)
+      let c1 := (List.range (Crypto.blocks l1)).map (Crypto.ctrOf iv1)
+      let c2 := (List.range (Crypto.blocks l2)).map (Crypto.ctrOf iv2)
+      if c1.any (fun x => c2.contains x) then "overlap" else "disjoint"
+    | _, _, _, _, _ => "bad-op"
+  | "latest" :: rest =>
+    let kv := kvArgsS rest
+    let master : Bytes := if argNatS kv "master" 0 == 0 then [] else List.replicate (argNatS kv "master" 0) 1
+    let next := argNatS kv "next" 0
+    let last := argNatS kv "last" 0
+    let keys : List Crypto.DataKey :=
+      if argNatS kv "has" 0 != 0 then [{ id := next, data := [], createdAt := last, iv := 0 }] else []
+    let r : Crypto.Registry := { master := master, rotationNs := (argNatS kv "rotns" 0 : Nat),
+                                 dataKeys := keys, lastCreated := last, nextKeyID := next }
+    let (r', dk) := r.latestDataKey (argNatS kv "now" 0) [1] 2
+    match dk with
+    | none => s!"nil next={r'.nextKeyID}"
+    | some k => (if r'.nextKeyID == r.nextKeyID then "reuse " else "new ") ++ s!"{k.id} next={r'.nextKeyID}"
+  | ["regopen", w, o, nk] =>
+    match hexArg w, hexArg o, natArg nk with
+    | some w, some o, some nk =>
+      fmtRegOpen (Crypto.openRegistry drvE o 0 5 ⟨some (Crypto.writeKeyRegistry drvE w 1 (mkKeys nk))⟩)
+    | _, _, _ => "bad-op"
+  | ["rotate", old, new, nk, reopen] =>
+    match hexArg old, hexArg new, natArg nk, hexArg reopen with
+    | some old, some new, some nk, some re =>
+      match Crypto.rotateMaster drvE old new 9 (Crypto.writeKeyRegistry drvE old 1 (mkKeys nk)) with
+      | .error _ => "rotate-failed"
+      | .ok f' =>
+        match Crypto.readKeyRegistry drvE re 0 f' with
+        | .error .keyMismatch => "mismatch"
+        | .error _ => "err"
+        | .ok r => if r.dataKeys == mkKeys nk then s!"ok {nk} same-keys" else s!"ok {r.dataKeys.length} changed-keys"
+    | _, _, _, _ => "bad-op"
+  | "session" :: _ => "ok"
+  | _ => "bad-op"
 
 end Badger.Driver
